@@ -119,3 +119,56 @@ Proof.
   - intros. by apply upd_call_done_okd.
   - intros s bs cl H E. okd_tac.
 Qed.
+
+Ltac okd_leaf := first [assumption | apply remove_listener_okd; assumption | prep; okd_tac | idtac].
+
+Lemma create_service_impl_okd a b c m cn serial oc u i fresh :
+  okd a b c (ms m) -> res (SP (okd a b c)) (SP (okd a b c)) (create_service_impl m cn serial oc u i fresh).
+Proof. intros H. unfold create_service_impl. wp okd_leaf idtac. Qed.
+
+Lemma call_impl_okd a b c m cn serial sc fn ver v bserial :
+  okd a b c (ms m) -> res (SP (okd a b c)) (SP (okd a b c)) (call_impl m cn serial sc fn ver v bserial).
+Proof. intros H. unfold call_impl. wp okd_leaf idtac. Qed.
+
+Ltac okd_call :=
+  first [ apply create_service_impl_okd | apply call_impl_okd
+        | apply res_never, remove_object_okd | apply res_never, remove_service_okd
+        | apply res_never, remove_end_okd ]; cbn; okd_leaf.
+
+(* the handlers: the fresh cookie must not be a channel or listener cookie in use *)
+Lemma handle_okd a b c m cn x fresh bserial :
+  okd a b c (ms m) -> chans (ms m) !! fresh = None -> listeners (ms m) !! fresh = None ->
+  res (SP (okd a b c)) (SP (okd a b c)) (handle m cn x fresh bserial).
+Proof.
+  intros H Hc Hl. unfold handle. destruct (conns (ms m) !! cn) as [cs|] eqn:Ecn; [|exact H].
+  destruct x; try exact H; wp okd_leaf okd_call.
+Qed.
+
+Lemma legal_fresh s i : legal s i -> chans s !! i_fresh i = None /\ listeners s !! i_fresh i = None.
+Proof.
+  intros (Hf & _). unfold cookies_in_use in Hf. rewrite !not_elem_of_union in Hf.
+  destruct Hf as [[_ Hc] Hl]. split; by apply not_elem_of_dom.
+Qed.
+
+Lemma stats_step s e fresh b s' o :
+  stats_ok s -> chans s !! fresh = None -> listeners s !! fresh = None ->
+  step s e fresh b = Done (s', o) -> stats_ok s'.
+Proof.
+  rewrite !stats_ok_okd. intros H Hc Hl. apply step_sp; try exact H.
+  - intros. by apply settle_okd.
+  - intros c x _. by apply handle_okd.
+  - intros c ver _ E. unfold new_conn. okd_tac.
+  - intros _. okd_tac.
+  - intros _. okd_tac.
+  - intros c _. unfold drop_task. destruct (conns s !! c) eqn:E; [|exact H]. okd_tac.
+Qed.
+
+Lemma stats_step_legal s i s' o :
+  stats_ok s -> legal s i -> step s (i_ev i) (i_fresh i) (i_bserial i) = Done (s', o) -> stats_ok s'.
+Proof. intros H Hl. destruct (legal_fresh s i Hl). by apply stats_step. Qed.
+
+Lemma stats_init : stats_ok init.
+Proof. repeat split. Qed.
+
+Lemma stats_reachable s : reachable s -> stats_ok s.
+Proof. induction 1 as [|s i s' o _ IH Hl Hs]; [apply stats_init|by eapply stats_step_legal]. Qed.
